@@ -7,7 +7,7 @@ from props import register
 from props import httpcommon as hc
 
 BEHAVIOURS = ['204', '204', '200', '200', '200_early', '204_in_preview', '100_then_204', '100_then_200', 'icap500', 'close_before_head', 'close_mid_head', 'close_mid_body',
-              'reset_mid_body', 'stall', 'stall_mid_body', '200_chunked_nocl']
+              'reset_mid_body', 'stall', 'stall_mid_body', '200_chunked_nocl', 'close_mid_adapted_head']
 
 def icap_head(status, extra):
     return b'ICAP/1.0 ' + status + b'\r\nISTag: "sim-1"\r\nServer: sim\r\n' + extra + b'\r\n'
@@ -116,6 +116,10 @@ class C60(hc.PProp):
                 r.add('send %s seg whole' % tok(icap_head(b'500 Server Error', b''))); r.add('close')
             elif beh == 'close_mid_head':
                 r.add('send %s seg whole' % tok(adapted.bytes()[:max(5, int(t['frac'] * 40))])); r.add('close')
+            elif beh == 'close_mid_adapted_head':
+                # the ICAP head is complete, the encapsulated HTTP header of the adapted message is cut short: no adapted byte can have been used
+                ih = len(icap_head(b'200 OK', b'Encapsulated: ' + enc + b'\r\n'))
+                r.add('send %s seg whole' % tok(adapted.bytes()[:ih + max(1, int(t['frac'] * (len(ahead) - 2)))])); r.add('close')
             elif beh in ('close_mid_body', 'reset_mid_body', 'stall_mid_body'):
                 read_rest()
                 hl = len(icap_head(b'200 OK', b'Encapsulated: ' + enc + b'\r\n')) + len(ahead)
@@ -139,11 +143,11 @@ class C60(hc.PProp):
         stats = {'adapted_judged': 0, 'virgin_judged': 0, 'failures_judged': 0, 'bypass_required_judged': 0, 'errors_seen': 0, 'icap_transactions': 0}
         stats['icap_transactions'] = sum(len(sc.rules) for sc in hist.server_conns('icap'))
         mode = plan['mode']
-        FAIL = ('icap500', 'close_before_head', 'close_mid_head', 'close_mid_body', 'reset_mid_body', 'stall', 'stall_mid_body')
-        EARLY_FAIL = ('icap500', 'close_before_head', 'close_mid_head', 'stall')     # no adapted byte can have been used
+        FAIL = ('icap500', 'close_before_head', 'close_mid_head', 'close_mid_adapted_head', 'close_mid_body', 'reset_mid_body', 'stall', 'stall_mid_body')
+        EARLY_FAIL = ('icap500', 'close_before_head', 'close_mid_head', 'close_mid_adapted_head', 'stall')     # no adapted byte can have been used
         # an ICAP error *status* is an answer of the service, not a failure to get one: squid deliberately does not bypass it
         # (ModXact::handleUnknownScode: disableBypass("unknown ICAP response code")), so bypass is demanded for transport-level failures only
-        BYPASSABLE = ('close_before_head', 'close_mid_head', 'stall')
+        BYPASSABLE = ('close_before_head', 'close_mid_head', 'close_mid_adapted_head', 'stall')
         def judge_body(rid, e, got, complete, where, errored):
             v, a = e['v'].bytes(), e['a'].bytes()
             beh = e['beh']
@@ -153,7 +157,7 @@ class C60(hc.PProp):
                 stats['errors_seen'] += 1
                 if plan['bypass'] and beh in BYPASSABLE and e['vsize'] <= 32768:
                     stats['bypass_required_judged'] += 1
-                    V.append(Violation('C60:bypass-not-honoured:%s' % beh, 'transaction %s (%s, bypass=on, virgin %d bytes): the ICAP service failed (%s) before any adapted content existed, yet %s got an error instead of the virgin message' % (rid, mode, e['vsize'], beh, where)))
+                    V.append(Violation('C60:bypass-not-honoured:%s' % (beh + (':body' if e['vsize'] > 0 or mode == 'respmod' else ':nobody') if beh == 'close_mid_adapted_head' else beh), 'transaction %s (%s, bypass=on, virgin %d bytes): the ICAP service failed (%s) before any adapted content existed, yet %s got an error instead of the virgin message' % (rid, mode, e['vsize'], beh, where)))
                 return
             if not complete:
                 if not (v.startswith(got) or a.startswith(got)):
